@@ -8,6 +8,11 @@ pub const SIGMA_CHAR_QUICK: &[&str] = &[
 /// and U+0141 whose low byte is ASCII `A` (the lexer truncates chars to u8 in one place).
 pub const SIGMA_CHAR_EXTRA: &[&str] = &["\u{20ac}", "\u{1f600}", "\r", "_", "#", ">", "\u{141}", "1", "F"];
 
+/// Characters that Unicode treats as white space or as invisible, but SPL does not: only
+/// blank, tab, CR and LF separate tokens, everything else is an unknown character
+/// (byte order mark, no-break space, form feed, line separator), mixed with a few ordinary ones.
+pub const SIGMA_CHAR_SPACE_LIKE: &[&str] = &["\u{feff}", "\u{a0}", "\u{c}", "\u{2028}", "a", "0", "/", "\n", " ", "'", "x"];
+
 pub fn sigma_char(thorough: bool) -> Vec<&'static str> {
     let mut v = SIGMA_CHAR_QUICK.to_vec();
     if thorough {
